@@ -1,23 +1,28 @@
 #!/usr/bin/env bash
-# tools/seedcheck.sh <seed_out dir> [checks...]
-# 1. confirms a seeded change in a scratch worktree: suite passes with it, the
+# tools/seedcheck.sh [--in-repo] [--no-confirm] <dir with patch.diff (+ *_test.go demo)> [checks...]
+# 1. confirms a seeded change in a scratch worktree: the suite passes with it, the
 #    demonstration fails with it and passes without it;
-# 2. applies it to /repo, runs the quick checks (all, or the ones named), reverts.
+# 2. runs the quick checks against the changed library:
+#      default   : the harness is built against the scratch worktree (-modfile with another replace),
+#                  with a private VERIF_ROOT, so several seedchecks can run side by side;
+#      --in-repo : git -C /repo apply, ./run.sh <check> quick for each, git -C /repo checkout -- .
 # Never commits anything to /repo.  Output: one line per check.
 set -u
 export GOFLAGS=-mod=mod GOPROXY=off GOSUMDB=off GOTOOLCHAIN=local
+INREPO=0; CONFIRM=1
+while [ "${1:-}" = "--in-repo" ] || [ "${1:-}" = "--no-confirm" ]; do
+  [ "$1" = "--in-repo" ] && INREPO=1; [ "$1" = "--no-confirm" ] && CONFIRM=0; shift
+done
 SD="$(cd "$1" && pwd)"; shift
 CHECKS="${*:-C01 C02 C03 C04 C05 C06 C07 C08 C09 C10 C11 C12 C13 C14 C15 C16 C17}"
 PATCH="$SD/patch.diff"
 [ -f "$PATCH" ] || { echo "no patch.diff in $SD"; exit 2; }
-if [ -n "$(git -C /repo status --porcelain --untracked-files=no)" ]; then echo "/repo is dirty; refusing"; exit 2; fi
 WT="/tmp/seedchk.$$"
 git -C /repo worktree add -q --detach "$WT" HEAD || exit 2
-cleanup() { git -C /repo worktree remove --force "$WT" 2>/dev/null; git -C /repo checkout -- . 2>/dev/null; }
+cleanup() { git -C /repo worktree remove --force "$WT" 2>/dev/null; rm -rf "/tmp/seedchk.$$.root"; [ $INREPO = 1 ] && git -C /repo checkout -- . 2>/dev/null; }
 trap cleanup EXIT
 DEMOS=$(ls "$SD"/*_test.go 2>/dev/null)
-if [ "${SKIP_CONFIRM:-0}" != 1 ]; then
-  # demo without the change
+if [ $CONFIRM = 1 ]; then
   if [ -n "$DEMOS" ]; then
     cp $DEMOS "$WT/"
     (cd "$WT" && go test -vet=off -count=1 -timeout 25m . >"$WT/.demo_clean.log" 2>&1); echo "confirm: suite+demo WITHOUT change: exit $? (want 0)"
@@ -25,21 +30,38 @@ if [ "${SKIP_CONFIRM:-0}" != 1 ]; then
   git -C "$WT" apply "$PATCH" || { echo "patch does not apply"; exit 2; }
   if [ -n "$DEMOS" ]; then
     (cd "$WT" && go test -vet=off -count=1 -timeout 25m . >"$WT/.demo_patched.log" 2>&1); echo "confirm: suite+demo WITH change: exit $? (want non-zero)"
-    grep -E "^(--- FAIL|FAIL|panic)" "$WT/.demo_patched.log" | head -5
+    grep -E "^(--- FAIL|FAIL|panic|WARNING: DATA RACE)" "$WT/.demo_patched.log" | head -4
     for d in $DEMOS; do rm -f "$WT/$(basename $d)"; done
   fi
   (cd "$WT" && go test -vet=off -count=1 -timeout 25m ./... >"$WT/.suite_patched.log" 2>&1); echo "confirm: suite alone WITH change: exit $? (want 0)"
+else
+  git -C "$WT" apply "$PATCH" || { echo "patch does not apply"; exit 2; }
 fi
-git -C /repo worktree remove --force "$WT"
-# run the checks against /repo with the change applied
-git -C /repo apply "$PATCH" || { echo "patch does not apply to /repo"; exit 2; }
-cd /verif
+report() { # $1 check, $2 rc, $3 output
+  keys=$(echo "$3" | grep -E "^  key=" | sed 's/^  key=//; s/ suite=.*//' | sort -u | head -4 | tr '\n' ';')
+  echo "check $1: exit $2  $keys"
+}
+if [ $INREPO = 1 ]; then
+  if [ -n "$(git -C /repo status --porcelain --untracked-files=no)" ]; then echo "/repo is dirty; refusing"; exit 2; fi
+  git -C /repo apply "$PATCH" || { echo "patch does not apply to /repo"; exit 2; }
+  cd /verif
+  for c in $CHECKS; do out=$(./run.sh $c quick 2>&1); report $c $? "$out"; done
+  git -C /repo checkout -- .
+  git -C /verif checkout -- evidence 2>/dev/null
+  exit 0
+fi
+# scratch mode
+ROOT="/tmp/seedchk.$$.root"; mkdir -p "$ROOT/bin"
+cp /verif/known_findings.json "$ROOT/"; cp -r /verif/findings "$ROOT/findings"
+sed "s|=> /repo|=> $WT|" /verif/harness/go.mod > "$ROOT/go.mod"
+cat "$WT/go.sum" /verif/harness/go.sum.extra | sort -u > "$ROOT/go.sum"
+need_race=0; need_plain=0
+for c in $CHECKS; do [ $c = C12 ] && need_race=1 || need_plain=1; done
+( cd /verif/harness
+  [ $need_plain = 1 ] && go build -modfile="$ROOT/go.mod" -tags verif -o "$ROOT/bin/mon-plain" ./cmd/mon
+  [ $need_race = 1 ] && go build -modfile="$ROOT/go.mod" -race -tags verif -o "$ROOT/bin/mon-race" ./cmd/mon ) >"$ROOT/build.log" 2>&1 || { echo "BUILD-FAILED"; cat "$ROOT/build.log" | head -20; exit 2; }
 for c in $CHECKS; do
-  out=$(./run.sh $c quick 2>&1); rc=$?
-  keys=$(echo "$out" | grep -E "^  key=" | sed 's/^  key=//; s/ suite=.*//' | sort -u | head -4 | tr '\n' ';')
-  echo "check $c: exit $rc  $keys"
+  k=plain; [ $c = C12 ] && k=race
+  out=$(cd "$ROOT" && VERIF_ROOT="$ROOT" "$ROOT/bin/mon-$k" -prop $c -tier quick 2>&1); report $c $? "$out"
 done
-git -C /repo checkout -- .
-# evidence files were rewritten by runs on a modified tree: restore the committed ones
-git -C /verif checkout -- evidence 2>/dev/null
 exit 0
